@@ -21,6 +21,7 @@ func fifoConfig(s Spec, epoch int64) vnet.Config {
 	r := rand.New(rand.NewSource(s.Seed))
 	cfg := baseConfig(s, r, Opt{Ns: []int{1, 2, 3, 4, 4, 5, 7}, MinH: 3, MaxH: 4, Dyn: 1})
 	cfg.Epoch = epoch
+	cfg.TsInc = []uint64{1000000, 1000000, 250000, 1000, 7, 1000000000}[r.Intn(6)]
 	cfg.GenesisTs = uint64(epoch) - uint64(cfg.TPB)
 	cfg.K = vnet.Knobs{Sync: true, FIFO: true, SlowNode: -1, ResetDelayNode: -1}
 	cfg.LatMin = cfg.TPB / time.Duration(pickInt(r, []int{100, 50, 20}))
@@ -121,7 +122,7 @@ var c14Deltas = []int64{1, 3600, 10000000, 1000000000}
 func C14(r *ev.Run) {
 	r.SetRule("one case = one deterministic FIFO schedule (N, heights, latency, silent primary, anti-MEV, dynamic block time drawn from the seed) executed three times: epoch E, epoch E+delta (delta = +-k whole seconds) and epoch E again later in wall time; non-trivial = at least 2 heights decided and the primary measured a round trip; distinct = distinct (abstract trace, sign and size of delta, epochs straddling the machine's present or not)")
 	r.Assume("the harness payloads carry nanosecond timestamps; nonces, hashes and signatures are excluded from the comparison because the library draws nonces from crypto/rand")
-	n := r.Pick(400, 8000)
+	n := r.Pick(4000, 80000)
 	var specs []Spec
 	for i := 0; i < n; i++ {
 		specs = append(specs, Spec{Profile: "fifo", Idx: i, Seed: RunSeed(r, "fifo", i)})
@@ -131,6 +132,16 @@ func C14(r *ev.Run) {
 		year := 1971 + rr.Intn(130)
 		e1 := time.Date(year, time.Month(1+rr.Intn(12)), 1+rr.Intn(28), rr.Intn(24), rr.Intn(60), rr.Intn(60), 0, time.UTC).UnixNano()
 		d := c14Deltas[rr.Intn(len(c14Deltas))] * int64(time.Second)
+		inc := int64(fifoConfig(s, e1).TsInc)
+		if rr.Intn(2) == 0 {
+			// any multiple of the timestamp increment, not only whole seconds
+			d = inc * (1 + rr.Int63n(1000000))
+			r.Count("cases-with-sub-second-offset", 1)
+		}
+		d -= d % inc
+		if d == 0 {
+			d = inc
+		}
 		if rr.Intn(2) == 0 {
 			d = -d
 		}
@@ -202,6 +213,7 @@ func C14(r *ev.Run) {
 	r.Floor("cases-with-rtt-measured", 100)
 	r.Floor("cases-with-change-view", 30)
 	r.Floor("cases-straddling-present", 20)
+	r.Floor("cases-with-sub-second-offset", 50)
 }
 
 func head(l []string, n int) []string {
